@@ -440,10 +440,36 @@ func (s *c11Session) hsClass(ev c11Event, err error) {
 	s.emit(ev, c, 0, "")
 }
 
+// c11Diverged: the bytes really in flight no longer match what the schedule
+// was generated for (the model's pipe) - the recorded projection of an earlier
+// step already differs from the model's, so the session ends here and TLC
+// judges the recorded prefix. Never a verdict by itself.
+type c11Diverged struct{ msg string }
+
+var c11Divergences int
+
 func (s *c11Session) rangeOk(ev c11Event, off, n, total int) {
 	if off < 0 || n < 0 || off+n > total {
-		s.t.Fatalf("event %+v: range [%d,+%d) outside the %d bytes in flight", ev, off, n, total)
+		panic(c11Diverged{fmt.Sprintf("event %+v: range [%d,+%d) outside the %d bytes in flight", ev, off, n, total)})
 	}
+}
+
+// applySched applies one event of a generated schedule; false = the real pipe
+// has diverged from the schedule's and the session must stop.
+func (s *c11Session) applySched(ev c11Event) (ok bool) {
+	defer func() {
+		if r := recover(); r != nil {
+			d, is := r.(c11Diverged)
+			if !is {
+				panic(r)
+			}
+			c11Divergences++
+			s.t.Logf("C11-DIVERGED %s", d.msg)
+			ok = false
+		}
+	}()
+	s.apply(ev)
+	return true
 }
 
 func c11Insert(buf []byte, at int, ins []byte) []byte {
@@ -533,9 +559,12 @@ func TestVerifC11Transport(t *testing.T) {
 					ev.O1, ev.O2 = 0, ev.O2+2
 				}
 			}
-			s.apply(ev)
+			if !s.applySched(ev) {
+				break
+			}
 		}
 	}
+	t.Logf("C11-DIVERGENCES %d", c11Divergences)
 	t.Logf("C11: %d schedules (%d handshakes through Dial/Listener), %d bursts, %d lines", len(files), dialed, bursts, out.Lines())
 }
 
